@@ -46,6 +46,7 @@ PROBES = [
     ("q", "{ item2 { __typename id } item { __typename } }"),
     ("q", "query($m: Money) { echo(m: $m) }"),
     ("q", "{ count again: count }"),
+    ("q", "{ modval }"),
     ("q", "{ value zzNoSuchField item { zzNeither } }"),
     ("q", "{ __type(name: \"Money\") { name kind } __schema { subscriptionType { name } } }"),
     ("q", "{ a: __type(name: \"Item\") { fields(includeDeprecated: true) { name isDeprecated args { name defaultValue } } } "
@@ -174,13 +175,21 @@ def register(i, kinds):
 
 
 SAME_SDL = [False]
+# ONE module definition object shared by every bundle (a reusable component listed in several engines' `modules=`)
+MODULE_DEF = {"name": "vf.c17_module", "config": {"base": 100, "suffix": "!"}}
 
 
 def cook(i):
     from tartiflette import create_engine
     # identical SDL text for every bundle (mode "same-sdl") or per-bundle differences
     sdl = (SDL + "\nextend type Item { only0: Int stock(n: Int = 0): Int }\nextend enum Level { L0 }\n") if SAME_SDL[0] else sdl_of(i)
-    return harness.run(create_engine(sdl, schema_name="bundle%d" % i))
+    if i % 2:
+        return harness.run(create_engine(sdl, schema_name="bundle%d" % i, modules=[MODULE_DEF]))
+    # ... and the other way of building an engine
+    from tartiflette import Engine
+    eng = Engine(sdl, schema_name="bundle%d" % i, modules=[MODULE_DEF, "vf.c17_module_plain"])
+    harness.run(eng.cook())
+    return eng
 
 
 def probe(engine, variables_value):
